@@ -118,6 +118,7 @@ type RunResult struct {
 	TimedOut  bool
 	Crashed   bool
 	FeedBytes int
+	Stopped   bool
 	EndSeq    int // request sequence number at which the sentinel was (first) executed
 }
 
@@ -132,6 +133,8 @@ type Feed struct {
 	Timeout  time.Duration
 	// StopAtCrash: as soon as the target crashes the tool is stopped (the process is considered dead).
 	StopAtCrash bool
+	// StopAfterReq > 0: the tool is stopped gracefully (context cancelled) once the target has processed that many requests during this Send.
+	StopAfterReq int
 	// AfterEndIdleMs: keep the Send running for this long after the sentinel was executed (idle source).
 	AfterEndIdleMs int
 }
@@ -152,11 +155,23 @@ func RunSend(ro *syncer.RedisOutput, srv *fake.Server, f Feed) RunResult {
 		}
 	}
 	srv.OnCrash = func() { conce.Do(func() { close(crashSeen) }) }
+	stopSeen := make(chan struct{})
+	if f.StopAfterReq > 0 {
+		var sonce sync.Once
+		cnt := 0
+		srv.OnRequest = func(seq int, cmd string, args [][]byte) {
+			cnt++
+			if cnt >= f.StopAfterReq {
+				sonce.Do(func() { res.Stopped = true; close(stopSeen) })
+			}
+		}
+	}
 	srv.Unlock()
 	defer func() {
 		srv.Lock()
 		srv.OnExec = nil
 		srv.OnCrash = nil
+		srv.OnRequest = nil
 		srv.Unlock()
 	}()
 
@@ -237,6 +252,7 @@ func RunSend(ro *syncer.RedisOutput, srv *fake.Server, f Feed) RunResult {
 		}
 	case <-crashSeen:
 		res.Crashed = true
+	case <-stopSeen:
 	case sendErr = <-sendDone:
 		sendReturned = true
 	case <-timer.C:
